@@ -549,7 +549,16 @@ def crash_program(rng, pid, cfg, cs, n_files=2, n_after=12):
         else:
             ops.append({"op": "stats"})
     ops.append({"op": "unmount"})
-    return {"id": pid, "cfg": cfg, "ops": ops, "crash": {"stride": 1}, "origin": "random:crash"}
+    prog = {"id": pid, "cfg": cfg, "ops": ops, "crash": {"stride": 1}, "origin": "random:crash"}
+    if rng.random() < 0.35:
+        # a transient storage error during one flush, followed by a successful retry: the retry's promise counts
+        idx = [i for i, o in enumerate(ops) if o["op"] == "flush"]
+        if idx:
+            i = rng.choice(idx)
+            ops.insert(i + 1, dict(ops[i]))
+            prog["fault"] = {"at": i, "k": rng.randrange(1, 40), "continue": True}
+            prog["origin"] = "random:crash+fault"
+    return prog
 
 
 # ------------------------------------------------------------------------------------------------
@@ -577,6 +586,9 @@ def format_requests(rng, quick=True):
         n[0] += 1
         r = {"id": "fmt%d" % n[0], "sectors": sectors}
         r.update(kw)
+        # every fifth small volume is formatted over a storage full of old data (quick format must not rely on zeros)
+        if n[0] % 5 == 0 and sectors * kw.get("bps", 512) <= (40 << 20) and "tail" not in kw:
+            r["prefill"] = [0xD1, 0xFF, 0x01, 0xE5][n[0] // 5 % 4]
         reqs.append(r)
 
     # 1. default options, 512-byte sectors: tiny sizes exhaustively, then every threshold +- {0,1,2} sectors
@@ -818,6 +830,7 @@ def name_sets(rng, fold, quick=True):
             lookups.append(("open", base + up + up + ".t"))
             lookups.append(("open", base + chr(c) + ".tt"))
         batches.append((names, lookups))
+    batches += ascii_bit5_batches()
     # ASCII case pairs, alias lookups and renames to invalid names
     batches.append((["MixedCase.Txt", "long file name with spaces.text", "UPPER.TXT", "lower.txt", "a.b.c.d", "Caf\u00e9.txt"],
                     [("open", "mixedcase.TXT"), ("open", "LONG FILE NAME WITH SPACES.TEXT"), ("open", "LONGFI~1.TEX"), ("open", "longfi~1.tex"),
@@ -826,6 +839,22 @@ def name_sets(rng, fold, quick=True):
                      ("rename", ("UPPER.TXT", "bad:name")), ("rename", ("lower.txt", "")), ("rename", ("lower.txt", "x" * 256)), ("rename", ("lower.txt", "ok name")),
                      ("rename", ("a.b.c.d", "tab\there")), ("rename", ("MixedCase.Txt", "\u00e9" * 128))]))
     return batches
+
+
+def ascii_bit5_batches():
+    """ASCII characters that differ only in bit 5: letters are case pairs (one entry), `{`/`[`, `}`/`]`, `~`/`^`, `` ` ``/`@` are
+    different names (two entries); an ASCII-only fold must not confuse them"""
+    ok = set(list(range(48, 58)) + list(range(65, 91)) + list(range(97, 123)) + [36, 37, 39, 45, 95, 64, 126, 96, 33, 40, 41, 123, 125, 46, 32, 43, 44, 59, 61, 91, 93, 94, 35, 38])
+    out = []
+    cs = [c for c in range(0x40, 0x80) if c in ok and (c ^ 0x20) in ok]
+    for i in range(0, len(cs), 6):
+        names, lookups = [], []
+        for c in cs[i:i + 6]:
+            a, b = "n%02x" % (c | 0x20) + chr(c) + "q.t", "n%02x" % (c | 0x20) + chr(c ^ 0x20) + "q.t"
+            names += [a, b]
+            lookups += [("open", a), ("open", b), ("open", a.upper()), ("open", b.upper())]
+        out.append((names, lookups))
+    return out
 
 
 def bsd16(name):
@@ -840,7 +869,8 @@ def colliding_names(rng, n, prefix="ab", ext="txt"):
     buckets = {}
     i = 0
     while True:
-        nm = "%s%s-%d.%s" % (prefix, "".join(rng.choice("cdefgh") for _ in range(4)), i, ext)
+        # the first six characters are common too, so that the names collide on the PREFIX~N form as well as on the hash form
+        nm = "%scdef%s-%d.%s" % (prefix, "".join(rng.choice("ghijkl") for _ in range(4)), i, ext)
         i += 1
         b = buckets.setdefault(bsd16(nm), [])
         b.append(nm)
@@ -1072,7 +1102,7 @@ def foreign_volume(rng, ft, quick=True):
     bps = rng.choice([512, 512, 1024, 2048, 4096])
     spc = rng.choice([1, 1, 2, 4] if ft != 12 else [1, 2])
     if ft == 12:
-        n = rng.randrange(60, 200)
+        n = rng.choice([rng.randrange(60, 200), rng.randrange(60, 200), 4084])
     elif ft == 16:
         n = rng.choice([4085, 4090, 5000, 65524])
     else:
